@@ -143,6 +143,10 @@ def step (s : St) (toks : List String) : St × String :=
     match nat "a", nat "v", parseCoins c with
     | some a, some v, some c => res s (delegate s a v c)
     | _, _, _ => (s, "bad-op")
+  | ["l2burn", _, c] =>
+    match nat "a", parseCoins c with
+    | some a, some c => res s (l2Burn s a c)
+    | _, _ => (s, "bad-op")
   | ["undelegate", _, _, c] =>
     match nat "a", nat "v", parseCoins c with
     | some a, some v, some c => res s (undelegate s a v c)
